@@ -63,8 +63,10 @@ def write_evidence(pid, doc):
     except jsonschema.ValidationError as e:
         sys.stderr.write("BROKEN: evidence does not validate: %s\n" % e.message)
         sys.exit(2)
-    os.makedirs(os.path.join(VERIF, "evidence"), exist_ok=True)
-    path = os.path.join(VERIF, "evidence", pid + ".json")
+    # runs against a scratch worktree (PV_REPO set, mutation / false-alarm testing) must not overwrite the evidence of /repo
+    edir = os.path.join(VERIF, "evidence") if os.environ.get("PV_REPO", "/repo") == "/repo" else os.path.join(VERIF, ".scratch_evidence")
+    os.makedirs(edir, exist_ok=True)
+    path = os.path.join(edir, pid + ".json")
     tmp = path + ".tmp"
     with open(tmp, "w") as f:
         json.dump(doc, f, indent=1, sort_keys=True, default=str)
